@@ -1,5 +1,6 @@
 import GLua.Engines.TableEng
 import GLua.Engines.SemEng
+import GLua.Engines.PmEng
 import GLua.Engines.LimitsEng
 import GLua.Engines.C16Eng
 import GLua.Engines.ScopeEng
@@ -34,6 +35,7 @@ def stepLine (s : DState) (line : String) : DState × String :=
   | "reset" :: _ => ({}, "ok")
   | "T" :: r => let (t, v) := TableEng.handle s.tbl r; ({ s with tbl := t }, v.show)
   | "S" :: r => (s, SemEng.handle r)
+  | "C14" :: r => (s, (PmEng.handle r).show)
   | "C12" :: r => let (t, v) := LimitsEng.handle s.lim r; ({ s with lim := t }, v.show)
   | "C16" :: r => (s, (C16Eng.handle r).show)
   | "C17M" :: r => (s, (ScopeEng.handle r).show)
